@@ -115,14 +115,20 @@ Definition mod_blocks_of (s : N) (bcs : list (N * Z)) (acc : res index) : res in
   fold_left (fun a bd => res_bind a (fun i => mod_one i s (fst bd) (snd bd))) bcs acc.
 
 (* [members]: supervoxels the caller knows to belong to the label.  The code as it stood passes
-   none (members = []); repo_patches/C08-3-fix passes the supervoxels the mapping resolved. *)
-Definition modify_blocks (label : N) (idx : index) (sc : changes) (members : list N) : res index :=
-  let own := match supervoxels idx with [] => [label] | l => l end in
-  fold_left (fun a sb => if memN (fst sb) own || memN (fst sb) members
+   none (None: a new index is assumed to hold the supervoxel with the label's own id);
+   repo_patches/C08-3-fix passes the supervoxels the mapping resolved to the label. *)
+Definition accepts (label : N) (idx : index) (members : option (list N)) (s : N) : bool :=
+  match members with
+  | None => memN s (match supervoxels idx with [] => [label] | l => l end)
+  | Some m => memN s (supervoxels idx) || memN s m
+  end.
+
+Definition modify_blocks (label : N) (idx : index) (sc : changes) (members : option (list N)) : res index :=
+  fold_left (fun a sb => if accepts label idx members (fst sb)
                          then mod_blocks_of (fst sb) (snd sb) a else a) sc (Ok idx).
 
 (* ChangeLabelIndex (labelidx.go:695): None = no index stored *)
-Definition change_label_index (label : N) (oidx : option index) (sc : changes) (members : list N)
+Definition change_label_index (label : N) (oidx : option index) (sc : changes) (members : option (list N))
   : res (option index) :=
   res_bind (modify_blocks label (match oidx with Some i => i | None => [] end) sc members)
            (fun i => Ok (match i with [] => None | _ => Some i end)).
